@@ -114,6 +114,10 @@ DecW == IF Quick THEN <<1, 2, 8, 64, 252, 254, 255, 256>> ELSE [i \in 1..256 |->
 WithVals(w) == Around(w) \o (IF Quick THEN << Rnd(w) >> ELSE Globals \o << Rnd(w) >>)
 
 RangeWQ == <<0, 1, 2, 7, 8, 9, 63, 64, 65, 128, 192, 253, 254, 255, 256>>
+\* quick tier: EVERY width / pair count once with the two values straddling the bound
+\* (the full value sets are used at the listed widths only; thorough uses them everywhere)
+Upto(n) == [i \in 1..(n + 1) |-> i - 1]
+Straddle(w) == IF w = 0 THEN << Zero, One >> ELSE IF w >= 255 THEN << M1 >> ELSE << BSub(P2(w), One), P2(w) >>
 RangeCasesW(entry, widths) ==
   Flat(Map(widths, LAMBDA w : Map(WithVals(w),
         LAMBDA x : [g |-> entry, n |-> w, x |-> x, expect |-> RangeRel(w, x),
@@ -128,10 +132,20 @@ DecompCases ==
   Flat(Map(DecW, LAMBDA w : Map(WithVals(w),
         LAMBDA x : [g |-> "decomposition", n |-> w, x |-> x, expect |-> DecompRel(w, x),
                     ops |-> P1(x, [op |-> "decomposition", w |-> "x", n |-> w, out |-> "bits"])])))
+  \o (IF Quick THEN Flat(Map(Tail(Upto(256)), LAMBDA w : Map(<< BigLow(Rnd(w), w) >>,
+        LAMBDA x : [g |-> "decomposition", n |-> w, x |-> x, expect |-> DecompRel(w, x),
+                    ops |-> P1(x, [op |-> "decomposition", w |-> "x", n |-> w, out |-> "bits"])]))) ELSE << >>)
+RangeEveryWidth ==
+  IF Quick THEN Flat(Map(Upto(256), LAMBDA w : Map(Straddle(w),
+        LAMBDA x : [g |-> "range_bits", n |-> w, x |-> x, expect |-> RangeRel(w, x),
+                    ops |-> P1(x, [op |-> "range_bits", w |-> "x", bits |-> w])]))) ELSE << >>
 TruncCases ==
   Flat(Map(TruncW, LAMBDA w : Map(WithVals(w) \o << M1, Rnd(3) >>,
         LAMBDA x : [g |-> "truncate", n |-> w, x |-> x, expect |-> TruncRel(w, x),
                     ops |-> P1(x, [op |-> "truncate", w |-> "x", n |-> w, out |-> "t"])])))
+  \o (IF Quick THEN Flat(Map(Upto(254), LAMBDA w : Map(<< Rnd(w + 300) >>,
+        LAMBDA x : [g |-> "truncate", n |-> w, x |-> x, expect |-> TruncRel(w, x),
+                    ops |-> P1(x, [op |-> "truncate", w |-> "x", n |-> w, out |-> "t"])]))) ELSE << >>)
 LogicVals(p) == << <<M1, M1>>, <<Rnd(p), Rnd(p + 1)>>, <<BSub(P2(2 * p), One), Rnd(p)>>,
                    <<Rnd(5), BAdd(Rnd(5), P2(IF 2 * p < 254 THEN 2 * p ELSE 0))>>, <<Zero, M1>> >>
 LogicCases ==
@@ -139,6 +153,11 @@ LogicCases ==
         LAMBDA v : [g |-> "logic", n |-> p, xor |-> o, x |-> v[1], y |-> v[2],
                     expect |-> LogicRel(p, o, v[1], v[2]),
                     ops |-> P2w(v[1], v[2], [op |-> "logic", a |-> "x", b |-> "y", pairs |-> p, xor |-> o, out |-> "o"])])))))
+  \o (IF Quick THEN Flat(Map(Upto(127), LAMBDA p : Map(<<TRUE, FALSE>>,
+        LAMBDA o : [g |-> "logic", n |-> p, xor |-> o, x |-> Rnd(p + 500), y |-> Rnd(p + 700),
+                    expect |-> LogicRel(p, o, Rnd(p + 500), Rnd(p + 700)),
+                    ops |-> P2w(Rnd(p + 500), Rnd(p + 700),
+                                [op |-> "logic", a |-> "x", b |-> "y", pairs |-> p, xor |-> o, out |-> "o"])]))) ELSE << >>)
 
 \* operand handles for the bitwise components: one handle for both operands, constant
 \* witnesses (0 = ZERO, 1 = ONE) as operands
@@ -544,9 +563,11 @@ ShapePts == << Id, JubJubG, JubJubT8, JubJubMixed, Origin, OffCurve, << Rnd(73),
                << One, Zero >>, << Zero, M1 >>,
                \* a pole of the addition law against G: x with 1 + d x1 x2 y1 y2 = 0 has no
                \* curve solution, so use an off-curve pair that makes a denominator vanish
-               << BInv(BMul(BEdwardsD, BMul(JubJubG[1], JubJubG[2]))), M1 >> >>
+               << BInv(BMul(BEdwardsD, BMul(JubJubG[1], JubJubG[2]))), M1 >>,
+               \* ... and the other pole (1 - d x1 x2 y1 y2 = 0)
+               << BInv(BMul(BEdwardsD, BMul(JubJubG[1], JubJubG[2]))), One >> >>
 ShV == IF Quick THEN SubSeq(ShapeVals, 1, 8) ELSE ShapeVals
-ShP == IF Quick THEN SubSeq(ShapePts, 1, 7) \o << ShapePts[10] >> ELSE ShapePts
+ShP == IF Quick THEN SubSeq(ShapePts, 1, 7) \o << ShapePts[10], ShapePts[11] >> ELSE ShapePts
 
 Sh(shape, ops) == [g |-> "shape", shape |-> shape, ops |-> ops]
 OneW(name, op) == Map(ShV, LAMBDA x : Sh(name, P1(x, op)))
@@ -608,7 +629,7 @@ ShapeCases ==
 
 VARIABLE k
 AllCases ==
-  CASE Family = "range" -> RangeCasesW("range_bits", RangeW) \o RangeCasesW("range_check", RangeWQ) \o RangePairCases
+  CASE Family = "range" -> RangeCasesW("range_bits", RangeW) \o RangeCasesW("range_check", RangeWQ) \o RangePairCases \o RangeEveryWidth
     [] Family = "decomposition" -> DecompCases
     [] Family = "decomposition-alias" -> AliasCases
     [] Family = "shape" -> ShapeCases
